@@ -479,6 +479,22 @@ def check_wrappers(ctx):
         if not (np.array_equal(r_ref, r_keep) and np.allclose(back, np.stack([sx, sy, sz]), rtol=0, atol=1e-12)):
             ctx.violate("spherical_coordinates(x, y, z, r=<the radius>) does not invert back to (x, y, z), or alters the radius it was given",
                         {"op": "spherical_r_given", "x": sx.tolist(), "y": sy.tolist(), "z": sz.tolist()}, {"kind": "spherical"})
+        # flattening a multi-dimensional set of points enumerates it in row-major (x-major) index order whatever the memory
+        # layout of the coordinate array (C, Fortran, a transposed view)
+        sh = (int(rng.integers(2, 5)), int(rng.integers(2, 4)), int(rng.integers(1, 4)))
+        base = rng.normal(size=(*sh, 3))
+        want_flat = base.reshape(-1, 3)
+        for lab, arr in (("C order", np.ascontiguousarray(base)), ("Fortran order", np.asfortranarray(base)),
+                         ("transposed view", np.ascontiguousarray(base.transpose(2, 1, 0, 3)).transpose(2, 1, 0, 3))):
+            pts_nd = g.Points(arr)
+            flat = pts_nd.to_1d_points().coords
+            ctx.count("to_1d_points:" + lab.split()[0])
+            if flat.shape != want_flat.shape or not np.array_equal(flat, want_flat):
+                ctx.violate(f"Points.to_1d_points does not enumerate a {sh} set of points in row-major index order when its coordinates are held in {lab}",
+                            {"op": "to_1d_points_layout", "shape": list(sh), "layout": lab}, {"kind": "grid_order"})
+            resh = pts_nd.reshape((sh[0] * sh[1], sh[2])).coords
+            if not np.array_equal(resh, base.reshape(sh[0] * sh[1], sh[2], 3)):
+                ctx.violate(f"Points.reshape reorders the points when the coordinates are held in {lab}", {"op": "reshape_layout", "shape": list(sh), "layout": lab}, {"kind": "grid_order"})
         # results belong to the caller
         y_, p__, r_ = (float(v) for v in rng.uniform(-3, 3, size=3))
         fixtures.check_fresh(ctx, "rotation_matrix_ypr", lambda: g.rotation_matrix_ypr(y_, p__, r_), {"op": "fresh", "fn": "rotation_matrix_ypr", "ypr": [y_, p__, r_]})
